@@ -78,6 +78,7 @@ type Exec struct {
 	maxSteps        int
 	curPos          string
 	overrides       map[string]*FuncV
+	strictPrefs     []*Term
 	uncheckedAssume bool
 	inOverride      bool
 }
@@ -451,6 +452,9 @@ func (e *Exec) check(c *Term, label string, kind string, msg string) {
 		e.addPC(c)
 		return
 	}
+	if sm := e.preferStrict(e.tb.Not(c)); sm != nil {
+		m = sm
+	}
 	e.w.reportViolation(e, label, kind, msg, m)
 	e.record(Decision{Choice: 1, Forced: true})
 	// continue under the assumption that the assertion holds
@@ -491,4 +495,29 @@ func (e *Exec) settleAssumptions() {
 	default:
 		e.w.noteInconclusive("solver unknown on the feasibility of deferred assumptions")
 	}
+}
+
+// preferStrict looks for a model of pc ∧ extra that also satisfies as many of the recorded
+// strictness preferences as possible (all at once, else greedily); nil if none is found.
+func (e *Exec) preferStrict(extra *Term) map[string]uint64 {
+	if len(e.strictPrefs) == 0 {
+		return nil
+	}
+	all := extra
+	for _, p := range e.strictPrefs {
+		all = e.tb.And(all, p)
+	}
+	if r, m := e.sat(all, true); r == Sat {
+		return m
+	}
+	acc := extra
+	var best map[string]uint64
+	for _, p := range e.strictPrefs {
+		try := e.tb.And(acc, p)
+		if r, m := e.sat(try, true); r == Sat {
+			acc = try
+			best = m
+		}
+	}
+	return best
 }
